@@ -156,6 +156,11 @@ fn handler(req: Request) -> Response {
             "e" => Response::text(500, "scripted error"),
             "p" => panic!("scripted handler panic"),
             "d" => Response::drop_connection(),
+            // f: the handler works on the uploaded file after the gate: every byte must still be there
+            "f" => {
+                let n = req.body.reader().map(|r| { use std::io::Read; r.bytes().filter(|b| b.is_ok()).count() }).unwrap_or(usize::MAX);
+                if n == 100_000 { Response::text(200, format!("gate-{id}")) } else { Response::text(500, format!("upload is gone or cut: {n}")) }
+            }
             _ => Response::text(200, format!("gate-{id}")),
         };
     }
@@ -498,6 +503,12 @@ pub fn case_shutdown(ctx: &mut Ctx, n: &str, phases: &str, delay: &str) {
                 if r.starts_with("200") { "served".to_string() } else { "notserved".to_string() }
             }
         };
+        // a graceful restart: a replacement server starts on the same cache directory as soon as the old one has signalled;
+        // the requests the old one is still serving (their uploads are files of that directory) are not its business
+        let replacement_permit = Permit::new();
+        let replacement = executor().block_on(
+            HttpServerBuilder::new().max_conns(1).listen_addr("127.0.0.1:0".parse().unwrap()).receive_large_bodies(&super::c06::scratch_dir())
+                .permit(replacement_permit.new_sub()).spawn(|_req: Request| Response::text(200, "replacement")));
         // in-flight work completes; every connection serves at most one further request and is then closed
         let mut outs = Vec::new();
         for (i, (p, mut c)) in ph.iter().zip(conns.into_iter()).enumerate() {
@@ -534,6 +545,8 @@ pub fn case_shutdown(ctx: &mut Ctx, n: &str, phases: &str, delay: &str) {
             outs.push(format!("{p}:{first}+{second}"));
         }
         release_all();
+        drop(replacement_permit);
+        if let Ok((_addr, stopped2)) = replacement { let _ = stopped2.recv_timeout(Duration::from_secs(3)); }
         // every connection has ended: nothing the server created may be left in the cache directory
         let mut left = files_now().saturating_sub(files_before);
         for _ in 0..100 { if left == 0 { break; } std::thread::sleep(Duration::from_millis(5)); left = files_now().saturating_sub(files_before); }
